@@ -211,7 +211,6 @@ func regenInstances(repoDir, tier string, sink *report.Sink) ([]*gen.Instance, e
 		{Name: "corpus", Src: filepath.Join(vd, "corpus"), Module: "example.com/corpus", Cmds: [][]string{{".", "./..."}}, VRules: true},
 		{Name: "corpus-modifier", Src: filepath.Join(vd, "corpus_mod"), Module: "example.com/corpusmod", Cmds: [][]string{{".", "-genmode", "modifier", "./..."}}, VRules: true, Modifier: true},
 		{Name: "corpus-go122", Src: filepath.Join(vd, "corpus_go122"), Module: "example.com/corpusgo122", Go: "1.22", Cmds: [][]string{{".", "./..."}}, VRules: true},
-		{Name: "corpus-shadow", Src: filepath.Join(vd, "corpus_shadow"), Module: "example.com/corpusshadow", Cmds: [][]string{{".", "./..."}}, VRules: false},
 		{Name: "corpus-sourcemap", Src: filepath.Join(vd, "corpus"), Module: "example.com/corpus", Cmds: [][]string{{".", "-genmode", "source-map", "./..."}}, VRules: tier == "thorough"},
 	}
 	if tier == "thorough" {
